@@ -311,3 +311,76 @@ def check_refusal(em, code):
 def failed_write_outcome(oc):
     """outcome text of a path that returned the error of a failed Formatter call"""
     return oc.startswith("Err(") or oc.startswith("ret:")
+
+
+WRITE_CALLS = ("Formatter::push_str", "Formatter::push_byte", "Formatter::push_ascii", "Formatter::data_separator", "ResponseData::format_response_data",
+               "Formatter::push_usize", "Formatter::message_start", "Formatter::message_end")
+
+
+def is_write_call(name):
+    return name.endswith(WRITE_CALLS) or ("Formatter::" in name and name.split("::")[-1].startswith(("push", "write")))
+
+
+def write_discipline(r):
+    """How one returning path treats the results of its fallible Formatter / nested-writer calls.
+    -> (n_writes, n_examined, returned_directly, failed, outcome): a write's result is *examined* when the path
+    branches on its Ok/Err variant; it is *returned directly* when it is the path's return value."""
+    writes = [e for e in r.trace if e.kind == "call" and is_write_call(e.name)]
+    seen = set()
+    failed = False
+    for e in r.trace:
+        if e.kind == "assume" and e.name == "variant":
+            s = e.args[0]
+            if isinstance(s, tuple) and len(s) >= 3 and s[0] == "sym" and isinstance(s[2], tuple) and s[2] and s[2][0] == "ret" and is_write_call(str(s[2][1])):
+                seen.add(s[1])
+                if e.args[1] == "Err":
+                    failed = True
+    oc = M.outcome(r)
+    direct = oc.startswith("ret:") and is_write_call("X::" + oc[4:]) or (oc.startswith("ret:") and any(w.name.endswith(oc[4:]) for w in writes))
+    return len(writes), len(seen), bool(direct), failed, oc
+
+
+def check_write_discipline(results):
+    """-> list of reasons why a failed write would not be returned by the function these paths belong to"""
+    why = []
+    for r in results:
+        if r.outcome != "return":
+            continue
+        n, seen, direct, failed, oc = write_discipline(r)
+        if n > seen + (1 if direct else 0):
+            why.append("%d fallible write(s) but only %d result(s) examined%s: the failure of a write can be lost (path returns %s)" % (n, seen, " and one returned" if direct else "", oc))
+        elif failed and not failed_write_outcome(oc):
+            why.append("a failed write is swallowed (path returns %s)" % oc)
+    return why
+
+
+def list_cases(sizes=(0, 1, 2, 3, 5)):
+    """representative lists of opaque elements with the expected emission: every element once, in order, joined by `,`"""
+    cases = []
+    for n in sizes:
+        lst = fdai.ListV([Cell(SymV("el%d" % i, "el%d" % i), "el%d" % i) for i in range(n)])
+        if n == 0:
+            cases.append(("empty", lst, ("refuse", "DeviceSpecificError")))
+        else:
+            exp = []
+            for i in range(n):
+                if i:
+                    exp.append(b",")
+                exp.append(("item", "el%d" % i))
+            cases.append(("n=%d" % n, lst, exp))
+    return cases
+
+
+def check_cases(eng, body, cases):
+    """-> list of "label: reason" for the cases whose emission differs from the expectation"""
+    bad = []
+    for label, val, exp in cases:
+        try:
+            em = emit(eng, body, val)
+        except (fdai.TooManyPaths, RecursionError) as e:
+            bad.append("%s: undecided (%s)" % (label, type(e).__name__))
+            continue
+        why = check_refusal(em, exp[1]) if isinstance(exp, tuple) and exp and exp[0] == "refuse" else check_emission(em, exp)
+        if why:
+            bad.append("%s: %s" % (label, why))
+    return bad
